@@ -39,7 +39,7 @@ var (
 	c02Paths     = []string{"/auth", "/auth/", "/Auth", "/authx", "//auth", "/", "/auth?x=1"}
 	c02Auths     = []string{"-", "", "good", "bad"}
 	c02RXs       = []string{"-", "0", "100000", "abc"}
-	c02Noises    = []string{"", "padding", "udp"}
+	c02Noises    = []string{"", "padding", "udp", "cookie5000", "cookie60000"}
 	c02Histories = []string{"fresh", "after-rejected-auth", "after-accepted-auth", "after-two-masq-requests",
 		"after-another-connection-authenticated-and-closed", "while-another-connection-is-authenticated",
 		"on-a-connection-busy-for-longer-than-any-timeout"}
@@ -114,6 +114,15 @@ func c02Header(c *c02Case) http.Header {
 		h.Set(protocol.CommonHeaderPadding, "xxxxxxxx")
 	case "udp":
 		h.Set(protocol.ResponseHeaderUDPEnabled, "true")
+	case "cookie5000", "cookie60000":
+		// "every header set": a large but ordinary header (the HTTP/3 layer accepts 1 MiB by default;
+		// added after the independently seeded change C02-7: a 4096-byte MaxHeaderBytes made the
+		// HTTP/3 layer answer 431 itself)
+		n := 5000
+		if c.Noise == "cookie60000" {
+			n = 60000
+		}
+		h.Set("Cookie", "session="+strings.Repeat("c", n))
 	}
 	return h
 }
